@@ -688,7 +688,11 @@ def catalogue(ctx, d, datadir):
                                   ("datafile-name-too-long", os.path.join(datadir, "x" * 300), "fail"),
                                   ("datafile-empty-name", "", "fail"),
                                   ("datafile-under-file", os.path.join(present, "x"), "fail"),
-                                  ("datafile-present", present, "ok")]:
+                                  ("datafile-present", present, "ok")] + \
+                [(t, pth, "fail") for t, pth in (("datafile-size0-unreadable-procdir", "/proc"), ("datafile-size0-unreadable-mem", "/proc/self/mem"),
+                                                 ("datafile-size0-unreadable-sysdir", "/sys"), ("datafile-size0-unreadable-procnet", "/proc/self/net"))
+                 # files that open, report size 0 and cannot be read: a reader that trusts the size never notices
+                 if os.path.exists(pth)]:
             src = S + ('u.server_dgram(io::file("%s"));\nu.client_dgram("afterwards");\n' % path).encode()
             mf = dict(mfiles(small))
             if expect == "ok":
